@@ -9,7 +9,7 @@ tmp=$(mktemp -d)
 ls seeded | grep -v catch_matrix | grep -E "$pat" | while read -r name; do
   prop=$(echo "$name" | cut -d- -f1)
   also=$(python3 -c "import json;print(' '.join(json.load(open('/verif/seeded/$name/meta.json')).get('also',[])))" 2>/dev/null)
-  echo "$name $prop $also"
+  echo "$name $prop $also" | sed "s/ *$//"
 done > $tmp/list
 cat $tmp/list | xargs -P "$jobs" -L 1 sh -c 'name=$0; shift 0; /verif/tools/run_mutant.sh "$name" "$@" 2>&1 | grep "^MUTANT" > '$tmp'/"$name".out' 
 cat $tmp/*.out | sed -E 's/^MUTANT ([^ ]+) check=([^ ]+) exit=([0-9]+) violations=([0-9]+) secs=([0-9]+)/\1\t\2\t\3\t\4\t\5/; s/^MUTANT ([^ :]+): (.*)/\1\t-\t-\t-\t\2/' | sort > $tmp/new.tsv
